@@ -95,6 +95,7 @@ def key_of(I, k):
         kid = getattr(k, "_keyid", None)
         if kid is None:
             kid = I.path.fresh_int("key")
+            I.path.add_pool(kid)
             k._keyid = kid
         return kid
     return to_z3(k)
